@@ -25,7 +25,7 @@ func init() {
 	register("C13", func(e *Env) {
 		renderPrelude()
 		e.perShard = 40
-		e.rep.Rule = "templates covering every construct (the evaluator battery + hash literals with duplicate keys and side-effecting values + generated loop/scope/function programs) x histories: fresh parse, repeated Exec of one parsed template, Clone, Parse with the cache off / cold / warm, interleaved over several templates; every result (output or error text) of one (template, data) pair must be identical, and the parsed program (deep structural dump through the verif hook) must be unchanged by every Exec; the single model answer is compared too; distinct by template"
+		e.rep.Rule = "templates covering every construct (the evaluator battery + hash literals with duplicate keys and side-effecting values + generated loop/scope/function programs) x histories: fresh parse, repeated Exec of one parsed template, Clone, Parse with the cache off / cold / warm, interleaved over several templates; data of distinct Go types with the same printed type name rendered alternately; every result (output or error text) of one (template, data) pair must be identical, and the parsed program (deep structural dump through the verif hook) must be unchanged by every Exec; the single model answer is compared too; distinct by template"
 		reps := 6
 		if e.Thorough() {
 			reps = 40
@@ -140,6 +140,62 @@ func init() {
 					break
 				}
 			}
+		}
+		// "equal context data": data of DIFFERENT Go types that merely print their type alike (same
+		// package-qualified name, declared in different scopes, different field layout) rendered
+		// one after the other - the result for each is fixed by its own fields, whatever ran before
+		{
+			type row struct {
+				Name string
+				Age  int
+			}
+			mkB := func() interface{} {
+				type row struct {
+					Age  int
+					Note string
+					Name string
+				}
+				return row{Age: 41, Note: "n", Name: "bob"}
+			}
+			mkC := func() interface{} {
+				type row struct {
+					Age int
+				}
+				return &row{Age: 7}
+			}
+			vals := []struct {
+				v    interface{}
+				want string
+			}{{row{"amy", 30}, "OK:amy is 30"}, {mkB(), "OK:bob is 41"}, {&row{"cy", 5}, "OK:cy is 5"}, {mkC(), "ERR"}}
+			tmpl := `<%= r.Name %> is <%= r.Age %>`
+			for round := 0; round < 3; round++ {
+				for _, cache := range []bool{false, true} {
+					plush.CacheEnabled = cache
+					for i := range vals {
+						x := vals[(i+round)%len(vals)]
+						res := ""
+						func() {
+							defer func() {
+								if r := recover(); r != nil {
+									res = fmt.Sprintf("PANIC %v", r)
+								}
+							}()
+							out, err := plush.Render(tmpl, plush.NewContextWith(map[string]interface{}{"r": x.v}))
+							if err != nil {
+								res = "ERR"
+							} else {
+								res = "OK:" + out
+							}
+						}()
+						e.rep.Evaluations++
+						e.Count("same-named-types")
+						if res != x.want {
+							e.Violate("c13-nondeterministic", fmt.Sprintf("%q with r = %#v rendered %q, want %q (round %d, cache %v): the result depends on what was rendered before", tmpl, x.v, res, x.want, round, cache), map[string]interface{}{"tmpl": tmpl, "value": fmt.Sprintf("%#v", x.v), "result": res})
+						}
+					}
+				}
+			}
+			plush.CacheEnabled = false
 		}
 	})
 }
